@@ -15,7 +15,8 @@ structure DSt where
   gates : List Bool := []          -- per target: `true` = Send is blocked by the harness
   seenEmit : List Nat := []        -- per target: emitted messages already reported
   seenAck  : List Nat := []        -- per source: acks already reported
-  hint     : List (TId × List (SId × Bool)) := []   -- per target: sources of the enqueues still to happen, in the implementation's observed order
+  hint     : List (TId × List (SId × Bool)) := []
+  noRetry  : Bool := false         -- no virtual time passes in this op: sleeping retry loops do not wake up   -- per target: sources of the enqueues still to happen, in the implementation's observed order
 
 /-- candidate eager actions in a fixed priority order -/
 def candidates (d : DSt) : List Act :=
@@ -26,7 +27,7 @@ def candidates (d : DSt) : List Act :=
     [Act.rack s] ++
     (match x.pc with
      | .bcast _ todo => todo.map fun p => Act.bcastStep s p.1
-     | .deliver pending => pending.map fun p => Act.deliver s p.1
+     | .deliver pending => if d.noRetry then [] else pending.map fun p => Act.deliver s p.1
      | .idle => [])
   let tgtActs := (List.range nt).flatMap fun t =>
     let tg := d.σ.tgt t
@@ -142,7 +143,8 @@ def applyEnv (d : DSt) (acts : List Act) (hintWords : List String) : DSt × Stri
   -- the observed per-target source order covers what is already in the pipeline plus the new enqueues
   let hint := (parseHint hintWords).map fun (t, l) => (t, l.drop (pipeline (d.σ.tgt t)).length)
   let σ := acts.foldl (fun σ a => (S2S.Routing.step d.cfg σ a).getD σ) d.σ
-  observe (settle fuel { d with σ := σ, hint := hint })
+  let (d', o) := observe (settle fuel { d with σ := σ, hint := hint })
+  ({ d' with noRetry := false }, o)
 
 def parseTasks : List String → Option (List (Int × TId))
   | [] => some []
@@ -169,6 +171,10 @@ def step (d : DSt) (line : String) : DSt × String :=
     | none => (d, "bad-op")
   | ["opentgt", t] => match t.toNat? with
     | some t => applyEnv d [.openTgt t, .startTgt t] hint
+    | none => (d, "bad-op")
+  | ["opentgt", t, "nosleep"] => match t.toNat? with
+    -- the target registers but no virtual time passes before the next op: receivers asleep in their retry back-off stay asleep
+    | some t => applyEnv { d with noRetry := true } [.openTgt t, .startTgt t] hint
     | none => (d, "bad-op")
   | "batch" :: s :: high :: tasks =>
     match s.toNat?, high.toInt?, parseTasks tasks with
